@@ -68,12 +68,17 @@ Fixpoint is_prefix (p s : list Z) : bool :=
 Definition m_lit (p : list Z) (s : list Z) : option (nat * nat) :=
   if is_prefix p s then same (length p) else None.
 
+Definition starts_with (c : Z) (s : list Z) : bool :=
+  match s with b :: _ => b =? c | [] => false end.
+
 (* Newline = '\r'? '\n' *)
 Definition newline_len (s : list Z) : nat :=
   match s with
-  | 10 :: _ => 1%nat
-  | 13 :: 10 :: _ => 2%nat
-  | _ => O
+  | [] => O
+  | a :: r =>
+      if a =? 10 then 1%nat
+      else if (a =? 13) && starts_with 10 r then 2%nat
+      else O
   end.
 Definition m_newline (s : list Z) : option (nat * nat) :=
   match newline_len s with O => None | n => same n end.
@@ -83,9 +88,6 @@ Fixpoint span_blank (s : list Z) : nat :=
   match s with b :: r => if is_blank b then S (span_blank r) else O | [] => O end.
 Definition m_spaces (s : list Z) : option (nat * nat) :=
   match span_blank s with O => None | n => same n end.
-
-Definition starts_with (c : Z) (s : list Z) : bool :=
-  match s with b :: _ => b =? c | [] => false end.
 
 (* ---- identifiers: Gen/UnicodeDerived.v ------------------------------------ *)
 
@@ -239,15 +241,18 @@ Definition m_self (s : list Z) : option (nat * nat) :=
 (* BeginHeredocTmpl = '<<' ('-')? Ident Newline *)
 Definition m_heredoc_begin (s : list Z) : option (nat * nat) :=
   match s with
-  | 60 :: 60 :: r =>
-      let '(d, r1) := match r with 45 :: r' => (1%nat, r') | _ => (O, r) end in
-      match ident_len r1 with
-      | O => None
-      | k => match newline_len (skipn k r1) with
-             | O => None
-             | n => same (2 + d + k + n)
-             end
-      end
+  | c0 :: c1 :: r =>
+      if (c0 =? 60) && (c1 =? 60) then
+        let d := if starts_with 45 r then 1%nat else O in
+        let r1 := skipn d r in
+        match ident_len r1 with
+        | O => None
+        | k => match newline_len (skipn k r1) with
+               | O => None
+               | n => same (2 + d + k + n)
+               end
+        end
+      else None
   | _ => None
   end.
 
